@@ -1,8 +1,10 @@
 /-
 C08 — status writes: idempotent, retry-safe, foreign entries preserved, within the CRD limits.
 
-Model: `NGF.Model.StatusWrite` (setter closures WITH their captured, mutated status; equality helpers;
-retry loop) and `NGF.Model.StatusLimits`. Vocabulary (defined in `NGF.Proofs.StatusWrite`):
+Model: `NGF.Model.StatusWrite` (setter closures with their captured status, equality helpers, retry
+loop) and `NGF.Model.StatusLimits`. `Setter.invoke` is the code in the tree (since fix 4e76cf1 the
+closures never change their captured status); `Setter.invokeMutating` is the pre-fix behaviour, kept
+with its witnesses as a regression detector (section C'). Vocabulary (defined in `NGF.Proofs.StatusWrite`):
   `Fresh s`    the captured status holds own entries only (how the Prepare*Requests functions build it)
   `Merging s`  route / policy / snippets-filter setter (status merged with foreign entries)
   `ekey k e`   what the equality helper of kind `k` compares: controller, compared reference fields,
@@ -18,12 +20,12 @@ import NGF.Generated.StatusFacts
 namespace NGF.StatusWrite
 open NGF.Generated
 
-/-! ## A. One invocation of a freshly built setter (k = 1): full strength -/
+/-! ## A. One invocation of a setter: every previous status, every computed status -/
 
 /-- Foreign entries are left intact: same content, same order, same multiplicity. -/
 theorem setter_preserves_foreign (s : Setter) (hm : Merging s) (hf : Fresh s) (prev : Status) :
     foreign s.ctlr (s.invoke prev).2.1 = foreign s.ctlr prev := by
-  rw [invoke_snd, invokeFixed_snd]
+  rw [invoke_snd]
   split
   · rfl
   · exact merged_foreign hm hf prev
@@ -51,7 +53,7 @@ theorem setter_noop_iff (s : Setter) (hm : Merging s) (hf : Fresh s) (prev : Sta
 /-- A no-op leaves the fetched object as it was. -/
 theorem setter_noop_leaves_object (s : Setter) (prev : Status) (h : (s.invoke prev).2.2 = false) :
     (s.invoke prev).2.1 = prev := by
-  rw [invoke_snd, invokeFixed_snd] at *
+  rw [invoke_snd] at *
   split at h <;> simp_all
 
 /-- In particular: if only transition times differ (entry by entry), nothing is written. -/
@@ -84,61 +86,51 @@ a write stores exactly the computed status. -/
 theorem whole_setter_spec (s : Setter) (h : s.kind.mode = .whole) (prev : Status) :
     ((s.invoke prev).2.2 = false ↔ prev.map wkey = s.cap.map wkey) ∧
     ((s.invoke prev).2.2 = true → (s.invoke prev).2.1 = s.cap) ∧ (s.invoke prev).1 = s := by
-  refine ⟨?_, ?_, invoke_fst_whole s h prev⟩
-  · rw [invoke_snd, invokeFixed_snd, ← wholeEq_iff]
+  refine ⟨?_, ?_, invoke_fst s prev⟩
+  · rw [invoke_snd, ← wholeEq_iff]
     simp only [equalCheck, merged, h]
     split <;> simp_all
   · intro hw
     rw [invoke_out_of_set s prev hw]; simp [merged, h]
 
-/-! ## B. Re-invocation of the same closure (what the retry loop does) -/
+/-! ## B. Re-invocation of the same closure (what the retry loop does): full strength, all k -/
 
-/-- The closure state after an invocation: the merging setters have stored the merged status in
-their captured variable. -/
-theorem setter_state_after_invoke (s : Setter) (prev : Status) :
-    (s.invoke prev).1 = { s with cap := merged s prev } := invoke_fst s prev
+/-- The closure state never changes. -/
+theorem setter_state_after_invoke (s : Setter) (prev : Status) : (s.invoke prev).1 = s :=
+  invoke_fst s prev
+
+/-- IDEMPOTENT UNDER RE-INVOCATION, for every number k of earlier invocations on arbitrary fetched
+statuses `prevs` (the retry loop after conflicts / failed updates): the next invocation behaves
+exactly like the first one of a freshly built setter. -/
+theorem setter_reinvocation_idempotent (s : Setter) (prevs : List Status) (p : Status) :
+    (prevs.foldl (fun t q => (t.invoke q).1) s).invoke p = s.invoke p := by
+  have : ∀ (l : List Status) (t : Setter), l.foldl (fun t q => (t.invoke q).1) t = t := by
+    intro l
+    induction l with
+    | nil => intro t; rfl
+    | cons q l ih => intro t; rw [List.foldl_cons, invoke_fst]; exact ih t
+  rw [this]
+
+/-- Hence after any k earlier invocations: foreign entries preserved, own entries replaced, no-op ⇔
+own entries unchanged modulo time. -/
+theorem setter_reinvocation_full_clause (s : Setter) (hm : Merging s) (hf : Fresh s)
+    (prevs : List Status) (p : Status) :
+    let r := (prevs.foldl (fun t q => (t.invoke q).1) s).invoke p
+    foreign s.ctlr r.2.1 = foreign s.ctlr p ∧ (r.2.2 = true → own s.ctlr r.2.1 = s.cap) ∧
+      (r.2.2 = false ↔ SameOwn s.kind s.ctlr p s.cap) := by
+  simp only [setter_reinvocation_idempotent]
+  exact ⟨setter_preserves_foreign s hm hf p, setter_replaces_own s hm hf p, setter_noop_iff s hm hf p⟩
 
 private def wOwn : Entry := ⟨"ngf", ["~", "~", "ns", "gw", "~", "~"], [⟨"Accepted", "True", "Accepted", "ok", 2, 9⟩]⟩
 private def wFor : Entry := ⟨"other", ["~", "~", "ns", "gw2", "~", "~"], [⟨"Accepted", "True", "Accepted", "ok", 1, 5⟩]⟩
 
-/-- WITNESS OF FALSITY (reproduced on the real HTTPRoute/GRPCRoute/TLSRoute/NGF-policy/
-BackendTLSPolicy/SnippetsFilter setters): "re-invoking the setter on a fresh copy preserves the
-foreign entries" does not hold — the second invocation writes the foreign entry twice. -/
-theorem setter_reinvocation_idempotent_false :
-    ¬ ∀ (s : Setter) (p1 p2 : Status), Merging s → Fresh s →
-        foreign s.ctlr ((s.invoke p1).1.invoke p2).2.1 = foreign s.ctlr p2 := by
-  intro h
-  have h1 := h ⟨routeKind, "ngf", [wOwn]⟩ [wFor] [wFor] (by decide) (by decide)
-  revert h1; decide
-
-/-- the same for the policy/snippets shape (foreign entries first) -/
-theorem setter_reinvocation_idempotent_false_policy :
-    ((Setter.mk policyKind "ngf" [wOwn]).invoke [wFor]).1.invoke [wFor] =
-      (⟨policyKind, "ngf", [wFor, wFor, wOwn]⟩, [wFor, wFor, wOwn], true) := by decide
-
-/-- PARTIAL (excluded region explicit): re-invocation is harmless when the status fetched by the
-earlier invocation held no foreign entry. -/
-theorem setter_reinvocation_partial (s : Setter) (p1 p2 : Status) (h : foreign s.ctlr p1 = []) :
-    (s.invoke p1).1.invoke p2 = s.invoke p2 := by
-  have : (s.invoke p1).1 = s := by
-    rw [invoke_fst]; cases s with | mk k c cap =>
-    simp only [merged] at *
-    cases hk : k.mode <;> simp_all
-  rw [this]
-
-/-- REPAIRED variant (`invokeFixed`: merge into a local copy): any number of earlier invocations
-leaves the closure as built, so every invocation behaves as the first one. -/
-theorem setter_reinvocation_fixed (s : Setter) (p : Status) :
-    (s.invokeFixed p).1 = s ∧ (s.invokeFixed p).2 = (s.invoke p).2 :=
-  ⟨invokeFixed_fst s p, (invoke_snd s p).symm⟩
-
 /-! ## C. The retry loop: every step count, every store, every failure schedule -/
 
-private theorem fixed_submission_spec {s : Setter} (hm : Merging s) (hf : Fresh s) {prev sub : Status}
-    (h : (s.invokeFixed prev).2 = (sub, true)) :
+private theorem submission_spec {s : Setter} (hm : Merging s) (hf : Fresh s) {prev sub : Status}
+    (h : (s.invoke prev).2 = (sub, true)) :
     foreign s.ctlr sub = foreign s.ctlr prev ∧ own s.ctlr sub = s.cap ∧
       ¬ SameOwn s.kind s.ctlr prev s.cap := by
-  rw [invokeFixed_snd] at h
+  rw [invoke_snd] at h
   split at h
   · simp at h
   · rename_i hne
@@ -147,64 +139,41 @@ private theorem fixed_submission_spec {s : Setter} (hm : Merging s) (hf : Fresh 
     exact ⟨merged_foreign hm hf prev, merged_own hm hf prev,
       fun hso => hne ((equalCheck_iff_sameOwn hm hf prev).2 hso)⟩
 
-/-- REPAIRED variant, all schedules: every status ever submitted (also after conflicts, failed
+/-- RETRY-SAFE, all schedules, all k: every status ever submitted (also after conflicts, failed
 updates and failed gets, also when other writers changed the object in between) keeps the foreign
-entries of the object it was computed from, holds exactly the computed own entries, and is only
-submitted when the own entries differ. -/
-theorem retry_fixed_every_submission (s : Setter) (hm : Merging s) (hf : Fresh s) (n : Nat)
+entries of the object it was computed from (content, order, multiplicity), holds exactly the computed
+own entries, and is only submitted when the own entries differ modulo time.
+(Before 4e76cf1 this theorem was `retry_fixed_every_submission`, about the repaired variant.) -/
+theorem retry_every_submission (s : Setter) (hm : Merging s) (hf : Fresh s) (n : Nat)
     (store : Status) (sched : List Op) :
-    ∀ prev sub ok, Call.update prev sub ok ∈
-        (runRetry Setter.invokeFixed n (Run.init s store) sched).calls →
-      foreign s.ctlr sub = foreign s.ctlr prev ∧ own s.ctlr sub = s.cap ∧
-        ¬ SameOwn s.kind s.ctlr prev s.cap :=
-  fun prev sub ok h => fixed_submission_spec hm hf (retryFixed_submissions s n store sched prev sub ok h)
-
-/-- CURRENT code, all schedules, all k: own entries are always exactly the computed ones and no
-foreign entry of the fetched object is lost or reordered (but see the witness below: they may be
-duplicated). -/
-theorem retry_own_replaced_nothing_lost (s : Setter) (hm : Merging s) (hf : Fresh s) (n : Nat)
-    (store : Status) (sched : List Op) :
-    ∀ prev sub ok, Call.update prev sub ok ∈ (runRetry Setter.invoke n (Run.init s store) sched).calls →
-      own s.ctlr sub = s.cap ∧ (foreign s.ctlr prev).Sublist (foreign s.ctlr sub) :=
-  (retry_invariant s hm hf n store sched).subs
-
-/-- CURRENT code, PARTIAL (k = 1): when the loop invoked the setter at most once, every submission
-satisfies the full clause. -/
-theorem retry_submission_partial (s : Setter) (hm : Merging s) (hf : Fresh s) (n : Nat)
-    (store : Status) (sched : List Op)
-    (hk : (runRetry Setter.invoke n (Run.init s store) sched).invocations ≤ 1) :
     ∀ prev sub ok, Call.update prev sub ok ∈ (runRetry Setter.invoke n (Run.init s store) sched).calls →
       foreign s.ctlr sub = foreign s.ctlr prev ∧ own s.ctlr sub = s.cap ∧
         ¬ SameOwn s.kind s.ctlr prev s.cap :=
-  fun prev sub ok h =>
-    fixed_submission_spec hm hf ((retry_invariant s hm hf n store sched).single hk prev sub ok h)
+  fun prev sub ok h => submission_spec hm hf (retry_submissions s n store sched prev sub ok h)
 
-/-- WITNESS OF FALSITY for the current code: one failed Update, then success — the stored HTTPRoute
-status holds the foreign parent twice. -/
-theorem retry_duplicates_foreign_witness :
-    (runRetry Setter.invoke 4 (Run.init ⟨routeKind, "ngf", [wOwn]⟩ [wFor]) [.updFail none]).store
-      = [wOwn, wFor, wFor] := by decide
-
-/-- …and after a conflict in which the other controller REMOVED its entry, the retried setter
-resurrects it. -/
-theorem retry_resurrects_foreign_witness :
-    (runRetry Setter.invoke 4 (Run.init ⟨routeKind, "ngf", [wOwn]⟩ [wFor]) [.updFail (some [])]).store
-      = [wOwn, wFor] := by decide
-
-/-- the repaired variant on the same two schedules -/
-theorem retry_fixed_on_witness :
-    (runRetry Setter.invokeFixed 4 (Run.init ⟨routeKind, "ngf", [wOwn]⟩ [wFor]) [.updFail none]).store
-      = [wOwn, wFor] ∧
-    (runRetry Setter.invokeFixed 4 (Run.init ⟨routeKind, "ngf", [wOwn]⟩ [wFor]) [.updFail (some [])]).store
-      = [wOwn] := by decide
-
-/-- No-op under retry (current code, all schedules): when the own entries are unchanged modulo time
-nothing is ever submitted and the stored object is untouched, whatever get errors precede. -/
+/-- No-op under retry, all schedules: when the own entries are unchanged modulo time nothing is ever
+submitted and the stored object is untouched, whatever get errors precede. -/
 theorem retry_noop_all_schedules (s : Setter) (hm : Merging s) (hf : Fresh s) (n : Nat) (store : Status)
     (sched : List Op) (h : SameOwn s.kind s.ctlr store s.cap) :
     let r := runRetry Setter.invoke n (Run.init s store) sched
     r.store = store ∧ r.writes = 0 ∧ ∀ p sub ok, Call.update p sub ok ∉ r.calls :=
   retry_noop s hm hf n store sched h
+
+/-- When something has to change and the first attempt meets no failure, exactly one write stores
+the merged status (non-vacuity of the two theorems above, and "own entries == computed" for the
+stored object). -/
+theorem retry_first_try_success (s : Setter) (hm : Merging s) (hf : Fresh s) (n : Nat) (store : Status)
+    (h : ¬ SameOwn s.kind s.ctlr store s.cap) :
+    let r := runRetry Setter.invoke (n + 1) (Run.init s store) []
+    r.writes = 1 ∧ own s.ctlr r.store = s.cap ∧ foreign s.ctlr r.store = foreign s.ctlr store := by
+  have hw : (Setter.invoke (Run.init s store).setter (Run.init s store).store).2.2 = true := by
+    cases hb : (s.invoke store).2.2 with
+    | true => simpa [Run.init] using hb
+    | false => exact absurd ((invoke_wasSet_false_iff hm hf store).1 hb) h
+  simp only [runRetry_succ, List.headD_nil, attempt_ok_set Setter.invoke _ hw, if_true]
+  refine ⟨rfl, ?_, ?_⟩
+  · exact setter_replaces_own s hm hf store (by simpa [Run.init] using hw)
+  · exact setter_preserves_foreign s hm hf store
 
 /-- Whole-status kinds (Gateway, GatewayClass, NginxGateway), all schedules: every submission is
 exactly the computed status and is made only when it differs modulo time. -/
@@ -213,7 +182,7 @@ theorem retry_whole_every_submission (s : Setter) (h : s.kind.mode = .whole) (n 
     ∀ prev sub ok, Call.update prev sub ok ∈ (runRetry Setter.invoke n (Run.init s store) sched).calls →
       sub = s.cap ∧ prev.map wkey ≠ s.cap.map wkey := by
   intro prev sub ok hc
-  have hr := retryWhole_submissions s h n store sched prev sub ok hc
+  have hr := retry_submissions s n store sched prev sub ok hc
   obtain ⟨h1, h2, _⟩ := whole_setter_spec s h prev
   have hw : (s.invoke prev).2.2 = true := by rw [hr]
   refine ⟨by rw [← h2 hw, hr], fun heq => ?_⟩
@@ -230,6 +199,80 @@ theorem retry_at_most_one_write (inv : Invoke) (n : Nat) (s : Setter) (store : S
     r.writes = 0 ∨ (r.writes = 1 ∧ ∃ prev, r.calls.getLast? = some (.update prev r.store true)) :=
   retry_writes inv n (Run.init s store) sched rfl
 
+/-- the code in the tree on the two schedules that broke the pre-fix code (see C') -/
+theorem retry_on_regression_schedules :
+    (runRetry Setter.invoke 4 (Run.init ⟨routeKind, "ngf", [wOwn]⟩ [wFor]) [.updFail none]).store
+      = [wOwn, wFor] ∧
+    (runRetry Setter.invoke 4 (Run.init ⟨routeKind, "ngf", [wOwn]⟩ [wFor]) [.updFail (some [])]).store
+      = [wOwn] := by decide
+
+/-! ## C'. The pre-fix variant `invokeMutating` (regression detector for commit 4e76cf1)
+
+A tree whose setters store the merged status in their captured variable again behaves like
+`invokeMutating`; the correspondence then matches only this variant and the judge reports
+`retry-duplicates-foreign` with the failing input. The statements below say exactly what that variant
+does: what is lost (idempotence) and what is not (own entries, no foreign entry dropped). -/
+
+/-- one invocation gives the same object status and verdict as the code in the tree … -/
+theorem mutating_same_result (s : Setter) (p : Status) : (s.invokeMutating p).2 = (s.invoke p).2 :=
+  invokeMutating_snd s p
+
+/-- … but stores the merged status in the closure -/
+theorem mutating_state_after_invoke (s : Setter) (prev : Status) :
+    (s.invokeMutating prev).1 = { s with cap := merged s prev } := invokeMutating_fst s prev
+
+/-- WITNESS (was reproduced on all six real merging setters before the fix): re-invocation of the
+mutating closure writes the foreign entry twice. -/
+theorem mutating_reinvocation_idempotent_false :
+    ¬ ∀ (s : Setter) (p1 p2 : Status), Merging s → Fresh s →
+        foreign s.ctlr ((s.invokeMutating p1).1.invokeMutating p2).2.1 = foreign s.ctlr p2 := by
+  intro h
+  have h1 := h ⟨routeKind, "ngf", [wOwn]⟩ [wFor] [wFor] (by decide) (by decide)
+  revert h1; decide
+
+theorem mutating_reinvocation_idempotent_false_policy :
+    ((Setter.mk policyKind "ngf" [wOwn]).invokeMutating [wFor]).1.invokeMutating [wFor] =
+      (⟨policyKind, "ngf", [wFor, wFor, wOwn]⟩, [wFor, wFor, wOwn], true) := by decide
+
+/-- the mutating variant is harmless only when the earlier fetched status held no foreign entry -/
+theorem mutating_reinvocation_partial (s : Setter) (p1 p2 : Status) (h : foreign s.ctlr p1 = []) :
+    (s.invokeMutating p1).1.invokeMutating p2 = s.invokeMutating p2 := by
+  have : (s.invokeMutating p1).1 = s := by
+    rw [invokeMutating_fst]; cases s with | mk k c cap =>
+    simp only [merged] at *
+    cases hk : k.mode <;> simp_all
+  rw [this]
+
+/-- mutating variant, all schedules, all k: own entries exact and no foreign entry lost or reordered
+(this is what distinguishes `retry-duplicates-foreign` from `foreign-not-preserved` in the judge) -/
+theorem mutating_retry_own_replaced_nothing_lost (s : Setter) (hm : Merging s) (hf : Fresh s) (n : Nat)
+    (store : Status) (sched : List Op) :
+    ∀ prev sub ok, Call.update prev sub ok ∈
+        (runRetry Setter.invokeMutating n (Run.init s store) sched).calls →
+      own s.ctlr sub = s.cap ∧ (foreign s.ctlr prev).Sublist (foreign s.ctlr sub) :=
+  (retry_invariant s hm hf n store sched).subs
+
+/-- mutating variant with a single invocation (k = 1): indistinguishable from the code in the tree -/
+theorem mutating_retry_submission_partial (s : Setter) (hm : Merging s) (hf : Fresh s) (n : Nat)
+    (store : Status) (sched : List Op)
+    (hk : (runRetry Setter.invokeMutating n (Run.init s store) sched).invocations ≤ 1) :
+    ∀ prev sub ok, Call.update prev sub ok ∈
+        (runRetry Setter.invokeMutating n (Run.init s store) sched).calls →
+      foreign s.ctlr sub = foreign s.ctlr prev ∧ own s.ctlr sub = s.cap ∧
+        ¬ SameOwn s.kind s.ctlr prev s.cap :=
+  fun prev sub ok h =>
+    submission_spec hm hf ((retry_invariant s hm hf n store sched).single hk prev sub ok h)
+
+/-- WITNESS: one failed Update, then success — the mutating variant stores the foreign parent twice … -/
+theorem mutating_retry_duplicates_foreign_witness :
+    (runRetry Setter.invokeMutating 4 (Run.init ⟨routeKind, "ngf", [wOwn]⟩ [wFor]) [.updFail none]).store
+      = [wOwn, wFor, wFor] := by decide
+
+/-- … and after a conflict in which the other controller REMOVED its entry, resurrects it. -/
+theorem mutating_retry_resurrects_foreign_witness :
+    (runRetry Setter.invokeMutating 4 (Run.init ⟨routeKind, "ngf", [wOwn]⟩ [wFor]) [.updFail (some [])]).store
+      = [wOwn, wFor] := by decide
+
 /-! ### non-vacuity -/
 
 example : Merging ⟨routeKind, "ngf", [wOwn]⟩ ∧ Fresh ⟨routeKind, "ngf", [wOwn]⟩ := by
@@ -239,7 +282,7 @@ example : Merging ⟨routeKind, "ngf", [wOwn]⟩ ∧ Fresh ⟨routeKind, "ngf", 
 example :
     let r := runRetry Setter.invoke 4 (Run.init ⟨routeKind, "ngf", [wOwn]⟩ [wFor, { wOwn with conds := [] }])
       [.getErr, .updFail (some [wFor]), .ok]
-    r.invocations = 2 ∧ r.writes = 1 ∧ r.gets = 3 ∧ r.store = [wOwn, wFor, wFor] := by decide
+    r.invocations = 2 ∧ r.writes = 1 ∧ r.gets = 3 ∧ r.store = [wOwn, wFor] := by decide
 
 /-- no-op: previous own entry differs only in time; duplicated own entries are still a no-op -/
 example :
@@ -394,61 +437,74 @@ theorem retry_function_as_modelled :
   refine ⟨by decide, by decide, ?_⟩
   rfl
 
-/-- The merging setters assign to their captured `status` (the modelled mutation), compare with the
-set-like helper and only then overwrite the object's status. Each conjunct also admits "the closure
-no longer assigns to its captured parameter" (`mutates_… = false`): then the repaired variant
-`invokeFixed` is the faithful one, which the correspondence run decides and reports. -/
+/-- The merging setters (since 4e76cf1): copy the captured status into a local `newStatus`, append the
+foreign entries of the fetched object to the copy, compare with the set-like helper and only then
+overwrite the object's status; none of them assigns to its captured parameter (`mutates_… = false`,
+computed by the translator from the closure's assignments). A setter that assigns to its captured
+status again breaks this obligation and behaves like `invokeMutating`. -/
 theorem setters_as_modelled :
-    (Status.mutates_newHTTPRouteStatusSetter = false ∨ Status.body_newHTTPRouteStatusSetter =
+    Status.mutates_newHTTPRouteStatusSetter = false ∧
+    Status.body_newHTTPRouteStatusSetter =
       ["hr := helpers.MustCastObject[*gatewayv1.HTTPRoute](object)",
-       "for _, os := range hr.Status.Parents { if string(os.ControllerName) != gatewayCtlrName { status.Parents = append(status.Parents, os) } }",
-       "if routeStatusEqual(gatewayCtlrName, hr.Status.Parents, status.Parents) { return false }",
-       "hr.Status = status",
-       "return true"]) ∧
-    (Status.mutates_newGRPCRouteStatusSetter = false ∨ Status.body_newGRPCRouteStatusSetter =
+       "newStatus := status",
+       "newStatus.Parents = slices.Clone(status.Parents)",
+       "for _, os := range hr.Status.Parents { if string(os.ControllerName) != gatewayCtlrName { newStatus.Parents = append(newStatus.Parents, os) } }",
+       "if routeStatusEqual(gatewayCtlrName, hr.Status.Parents, newStatus.Parents) { return false }",
+       "hr.Status = newStatus",
+       "return true"] ∧
+    Status.mutates_newGRPCRouteStatusSetter = false ∧
+    Status.body_newGRPCRouteStatusSetter =
       ["gr := helpers.MustCastObject[*gatewayv1.GRPCRoute](object)",
-       "for _, os := range gr.Status.Parents { if string(os.ControllerName) != gatewayCtlrName { status.Parents = append(status.Parents, os) } }",
-       "if routeStatusEqual(gatewayCtlrName, gr.Status.Parents, status.Parents) { return false }",
-       "gr.Status = status",
-       "return true"]) ∧
-    (Status.mutates_newTLSRouteStatusSetter = false ∨ Status.body_newTLSRouteStatusSetter =
+       "newStatus := status",
+       "newStatus.Parents = slices.Clone(status.Parents)",
+       "for _, os := range gr.Status.Parents { if string(os.ControllerName) != gatewayCtlrName { newStatus.Parents = append(newStatus.Parents, os) } }",
+       "if routeStatusEqual(gatewayCtlrName, gr.Status.Parents, newStatus.Parents) { return false }",
+       "gr.Status = newStatus",
+       "return true"] ∧
+    Status.mutates_newTLSRouteStatusSetter = false ∧
+    Status.body_newTLSRouteStatusSetter =
       ["tr := helpers.MustCastObject[*v1alpha2.TLSRoute](object)",
-       "for _, os := range tr.Status.Parents { if string(os.ControllerName) != gatewayCtlrName { status.Parents = append(status.Parents, os) } }",
-       "if routeStatusEqual(gatewayCtlrName, tr.Status.Parents, status.Parents) { return false }",
-       "tr.Status = status",
-       "return true"]) ∧
-    (Status.mutates_newNGFPolicyStatusSetter = false ∨ Status.body_newNGFPolicyStatusSetter =
+       "newStatus := status",
+       "newStatus.Parents = slices.Clone(status.Parents)",
+       "for _, os := range tr.Status.Parents { if string(os.ControllerName) != gatewayCtlrName { newStatus.Parents = append(newStatus.Parents, os) } }",
+       "if routeStatusEqual(gatewayCtlrName, tr.Status.Parents, newStatus.Parents) { return false }",
+       "tr.Status = newStatus",
+       "return true"] ∧
+    Status.mutates_newNGFPolicyStatusSetter = false ∧
+    Status.body_newNGFPolicyStatusSetter =
       ["policy := helpers.MustCastObject[policies.Policy](object)",
        "prevStatus := policy.GetPolicyStatus()",
        "maxAncestors := len(status.Ancestors) + len(prevStatus.Ancestors)",
        "ancestors := make([]v1alpha2.PolicyAncestorStatus, 0, maxAncestors)",
        "for _, as := range prevStatus.Ancestors { if string(as.ControllerName) != gatewayCtlrName { ancestors = append(ancestors, as) } }",
        "ancestors = append(ancestors, status.Ancestors...)",
-       "status.Ancestors = ancestors",
-       "if policyStatusEqual(gatewayCtlrName, prevStatus, status) { return false }",
-       "policy.SetPolicyStatus(status)",
-       "return true"]) ∧
-    (Status.mutates_newBackendTLSPolicyStatusSetter = false ∨ Status.body_newBackendTLSPolicyStatusSetter =
+       "newStatus := v1alpha2.PolicyStatus{Ancestors: ancestors}",
+       "if policyStatusEqual(gatewayCtlrName, prevStatus, newStatus) { return false }",
+       "policy.SetPolicyStatus(newStatus)",
+       "return true"] ∧
+    Status.mutates_newBackendTLSPolicyStatusSetter = false ∧
+    Status.body_newBackendTLSPolicyStatusSetter =
       ["btp := helpers.MustCastObject[*v1alpha3.BackendTLSPolicy](object)",
        "maxAncestors := 1 + len(btp.Status.Ancestors)",
        "ancestors := make([]v1alpha2.PolicyAncestorStatus, 0, maxAncestors)",
        "for _, os := range btp.Status.Ancestors { if string(os.ControllerName) != gatewayCtlrName { ancestors = append(ancestors, os) } }",
        "ancestors = append(ancestors, status.Ancestors...)",
-       "status.Ancestors = ancestors",
-       "if policyStatusEqual(gatewayCtlrName, btp.Status, status) { return false }",
-       "btp.Status = status",
-       "return true"]) ∧
-    (Status.mutates_newSnippetsFilterStatusSetter = false ∨ Status.body_newSnippetsFilterStatusSetter =
+       "newStatus := v1alpha2.PolicyStatus{Ancestors: ancestors}",
+       "if policyStatusEqual(gatewayCtlrName, btp.Status, newStatus) { return false }",
+       "btp.Status = newStatus",
+       "return true"] ∧
+    Status.mutates_newSnippetsFilterStatusSetter = false ∧
+    Status.body_newSnippetsFilterStatusSetter =
       ["sf := helpers.MustCastObject[*ngfAPI.SnippetsFilter](obj)",
        "maxControllerStatus := 1 + len(sf.Status.Controllers)",
        "controllerStatuses := make([]ngfAPI.ControllerStatus, 0, maxControllerStatus)",
        "for _, status := range sf.Status.Controllers { if string(status.ControllerName) != gatewayCtlrName { controllerStatuses = append(controllerStatuses, status) } }",
        "controllerStatuses = append(controllerStatuses, snippetsFilterStatus.Controllers...)",
-       "snippetsFilterStatus.Controllers = controllerStatuses",
-       "if snippetsFilterStatusEqual(gatewayCtlrName, snippetsFilterStatus.Controllers, sf.Status.Controllers) { return false }",
-       "sf.Status = snippetsFilterStatus",
-       "return true"]) := by
-  refine ⟨?_, ?_, ?_, ?_, ?_, ?_⟩ <;> first | exact Or.inr rfl | exact Or.inl rfl
+       "newStatus := ngfAPI.SnippetsFilterStatus{Controllers: controllerStatuses}",
+       "if snippetsFilterStatusEqual(gatewayCtlrName, newStatus.Controllers, sf.Status.Controllers) { return false }",
+       "sf.Status = newStatus",
+       "return true"] := by
+  repeat' (first | rfl | constructor)
 
 /-- The whole-status setters compare, then assign the captured status (never mutated). -/
 theorem whole_setters_as_modelled :
